@@ -23,7 +23,7 @@ LEVEL_RULE = (
 EXHAUSTIVE_SUBDOMAINS = ["every NL band 1..59 x hemisphere x newer parity (directed)"]
 ASSUMPTIONS = ["positions whose recovered latitude is within 1e-9 deg of an NL transition are ambiguous, not judged",
                "receiver latitude clamped to [-90,90]; equal timestamps accept either frame"]
-REQUIRED = ["value_result", "datetime_ts", "no_ref_rejected", "rx_other_hemisphere", "rx_lat_zero", "rx_across_antimeridian",
+REQUIRED = ["value_result", "datetime_ts", "aware_datetime_ts", "no_ref_rejected", "rx_other_hemisphere", "rx_lat_zero", "rx_across_antimeridian",
             "rx_across_greenwich", "newer_even", "newer_odd", "target_south", "target_west"] + \
            ["band%d" % nl for nl in range(1, 60)]
 
@@ -52,7 +52,16 @@ def m_surface(ctx, case):
             ctx.hit("premise_not_met_skipped")
             return
     fn = adsb.position if case["api"] == "position" else adsb.surface_position
-    if case.get("dt"):
+    if case.get("dt") == "aware":
+        # timezone-aware stamps with DIFFERENT offsets (two feeders): the absolute instant decides which frame is newer
+        a_ = case["addr"] if isinstance(case["addr"], int) else 0
+        z0 = datetime.timezone(datetime.timedelta(hours=(a_ % 25) - 12))
+        z1 = datetime.timezone(datetime.timedelta(hours=((a_ >> 5) % 25) - 12))
+        b0 = datetime.datetime(2024, 1, 1, 12, tzinfo=datetime.timezone.utc)
+        T0 = (b0 + datetime.timedelta(seconds=te)).astimezone(z0)
+        T1 = (b0 + datetime.timedelta(seconds=to)).astimezone(z1)
+        ctx.hit("aware_datetime_ts")
+    elif case.get("dt"):
         # timestamps are documented as int | datetime
         b0 = datetime.datetime(2024, 1, 1)
         T0, T1 = b0 + datetime.timedelta(seconds=te), b0 + datetime.timedelta(seconds=to)
@@ -164,7 +173,7 @@ def mkcase(rng, lat, lon, order=None, rx=None):
     return {"p0": [lat, lon], "p1": [lat1, lon1], "rx": rx, "tc": [rng.choice((5, 6, 7, 8)), rng.choice((5, 6, 7, 8))],
             "mov": [rng.randrange(128), rng.randrange(128)], "trk": [rng.randrange(256), rng.randrange(256)],
             "tbit": [rng.randrange(2), rng.randrange(2)], "df": rng.choice((17, 17, 18)),
-            "ca": [rng.randrange(8), rng.randrange(8)], "addr": rng.fill(24), "te": te, "to": to, "dt": rng.random() < 0.15,
+            "ca": [rng.randrange(8), rng.randrange(8)], "addr": rng.fill(24), "te": te, "to": to, "dt": rng.choice((False,) * 16 + (True,) * 3 + ("aware",)),
             "api": rng.choice(("position", "surface_position")), "lower": rng.choice((0, 0, 0, 0, 0, 0, 0, 1, 2, 3))}
 
 
